@@ -297,7 +297,7 @@ func layouts(n int, blankSites []int, trailing bool, pairs bool) []layout {
 }
 
 func run(c *enum.Ctx) {
-	c.Rule("FASTA read into plain and quality-carrying templates, and written/read with ID and sequence-line prefixes; every FASTA/FASTQ file read alternately with a companion reader of another configuration; valid files from the C01/C02 generators (DNA and protein records, the protein stop letter alone on a line) (<=2 records; FASTA also a 12289-letter record) x layout transformations: FASTA re-wrap at widths {1,2,3,60,4095,4096,4097,20000}, a blank line - empty or holding white space only - at every line boundary (thorough: every pair), trailing ' ', tab, ' tab' on each line and on all lines, CRLF, no final newline, and their pairwise combinations; FASTQ: CRLF, blank lines at record boundaries, trailing blanks, no final newline; BED (every type) and GFF (features, regions, inline sequences last or not): CRLF x final newline; oracle: the record list of the variant equals that of the canonical file; non-trivial = variants that differ from the canonical text")
+	c.Rule("FASTA read into plain and quality-carrying templates, and written/read with ID and sequence-line prefixes; every FASTA/FASTQ file read alternately with a companion reader of another configuration; valid files from the C01/C02 generators (DNA and protein records, the protein stop letter alone on a line) (<=2 records; FASTA also a 12289-letter record) x layout transformations: FASTA re-wrap at widths {1,2,3,60,4095,4096,4097,20000}, a blank line - empty or holding white space only - at every line boundary (thorough: every pair), trailing ' ', tab, ' tab' on each line and on all lines, CRLF, no final newline, and their pairwise combinations; FASTQ: CRLF, blank lines at record boundaries, trailing blanks, no final newline; BED (every type) and GFF (features, regions, inline sequences last or not; a record whose line is 4094..4097, 8191..8193 and 12288 bytes long, last and first): CRLF x final newline; oracle: the record list of the variant equals that of the canonical file; non-trivial = variants that differ from the canonical text")
 	c.Assume("blank lines inside a FASTQ record and trailing blanks/blank lines in BED/GFF are not covered by the statement and are not generated")
 	var cases []kase
 	recs := []seqgen.Rec{
@@ -403,6 +403,21 @@ func run(c *enum.Ctx) {
 			}
 		}
 	}
+	// a last record whose line is exactly, just under and just over a multiple of the 4096-byte read
+	// buffer (a long name), with and without its terminator
+	lineLen := func(text []byte) int { ls := splitLines(text); return len(ls[len(ls)-1]) }
+	for _, typ := range []int{4, 12} {
+		probe, _ := featgen.WriteBed([]featgen.Bed{b1}, typ, typ)
+		base := lineLen(probe) - len(b1.Name)
+		for _, target := range []int{4094, 4095, 4096, 4097, 8191, 8192, 8193, 12288} {
+			bl := b1
+			bl.Name = seqgen.Fill("nmo", target-base)
+			for _, l := range layouts(0, nil, false, false) {
+				cases = append(cases, kase{Format: "bed", BedTyp: typ, Bed: []featgen.Bed{b2, bl}, L: l})
+				cases = append(cases, kase{Format: "bed", BedTyp: typ, Bed: []featgen.Bed{bl, b2, bl}, L: l})
+			}
+		}
+	}
 	f1 := featgen.Gff{Kind: "feature", SeqName: "s", Source: "p", Feature: "f", Start: 2, End: 5, Frame: -1, Attrs: []featgen.Attr{{"ID", "x"}}, Comments: "c d"}
 	f2 := featgen.Gff{Kind: "feature", SeqName: "my s", Source: "p", Feature: "f", Start: 0, End: 1, Frame: 1, Strand: 1, HasScore: true, Score: "0.1"}
 	rg := featgen.Gff{Kind: "region", SeqName: "chrX", Start: 0, End: 9}
@@ -410,6 +425,18 @@ func run(c *enum.Ctx) {
 	for _, gl := range [][]featgen.Gff{{f1}, {f2}, {f1, f2}, {rg}, {f1, rg}, {sq}, {f1, sq}, {sq, f2}, {rg, sq, f1, sq}} {
 		for _, l := range layouts(0, nil, false, false) {
 			cases = append(cases, kase{Format: "gff", Gff: gl, L: l})
+		}
+	}
+	{
+		probe, _ := featgen.WriteGff([]featgen.Gff{f1}, 3, false)
+		base := lineLen(probe) - len(f1.Comments)
+		for _, target := range []int{4094, 4095, 4096, 4097, 8191, 8192, 8193, 12288} {
+			fl := f1
+			fl.Comments = seqgen.Fill("c d", target-base)
+			for _, l := range layouts(0, nil, false, false) {
+				cases = append(cases, kase{Format: "gff", Gff: []featgen.Gff{f2, fl}, L: l})
+				cases = append(cases, kase{Format: "gff", Gff: []featgen.Gff{fl, rg, fl}, L: l})
+			}
 		}
 	}
 	// every FASTA case again with a quality-carrying template (its letters arrive through AppendLetters,
